@@ -4,8 +4,8 @@ import UF.Spec.Engine
 import UF.Spec.DnsEngine
 import UF.Spec.Cosmetic
 /- Ops of work group B (C01, C02, C15). Return `none` for ops of other groups. -/
-namespace UF.Ops
-open UF
+namespace UF.Ops.B
+open UF UF.B
 
 /-- Sorted, de-duplicated list of byte strings, rendered as one token. -/
 def outTextSet (ts : List Bytes) : String :=
@@ -82,11 +82,15 @@ def opC15 (args : List W) : String :=
     | _, _, _, _, _, _ => "bad-decode"
   | _ => "bad-arity"
 
+end UF.Ops.B
+
+namespace UF.Ops
+
 def dispatchB (op : String) (args : List W) : Option String :=
   match op with
-  | "c01.matchall" => some (opC01 args)
-  | "c02.dns" => some (opC02 args)
-  | "c15.cosm" => some (opC15 args)
+  | "c01.matchall" => some (B.opC01 args)
+  | "c02.dns" => some (B.opC02 args)
+  | "c15.cosm" => some (B.opC15 args)
   | _ => none
 
 end UF.Ops
